@@ -122,20 +122,57 @@ fn substitute(c: u8) -> u8 {
     }
 }
 
-/// style 0: exactly one wrong character at `pos`; style 1: every character from `pos` on is wrong
+/// style bit 0: 0 = exactly one wrong character at `pos`, 1 = every character from `pos` on is wrong;
+/// style bit 1: the substituted letters are UPPER-case (still letters: the class is kept) and the last
+///              character is written in upper case too when it is a letter;
+/// style bit 2: a `log` sink at Trace level is installed in the child (records are formatted and dropped)
 fn presented(expected: &str, pos: usize, style: u8) -> String {
     let mut b = expected.as_bytes().to_vec();
-    for i in 0..b.len() {
-        if i == pos || (style == 1 && i > pos) {
+    let n = b.len();
+    for i in 0..n {
+        if i == pos || (style & 1 == 1 && i > pos) {
             b[i] = substitute(b[i]);
+            if style & 2 != 0 {
+                b[i] = b[i].to_ascii_uppercase();
+            }
+        }
+    }
+    if style & 2 != 0 && pos != n - 1 {
+        b[n - 1] = b[n - 1].to_ascii_uppercase();
+        if b[n - 1].is_ascii_digit() && pos + 1 < n - 1 {
+            // make sure at least one upper-case letter is present: spell a letter after `pos` in upper case
+            for i in (pos + 1..n - 1).rev() {
+                if b[i].is_ascii_lowercase() {
+                    b[i] = b[i].to_ascii_uppercase();
+                    break;
+                }
+            }
         }
     }
     String::from_utf8(b).unwrap()
 }
 
-fn child(sc: &Scenario, sig: String) -> ! {
+struct Sink;
+impl log::Log for Sink {
+    fn enabled(&self, _m: &log::Metadata) -> bool {
+        true
+    }
+    fn log(&self, r: &log::Record) {
+        // format the record as a real sink would, then drop it
+        let s = format!("{}", r.args());
+        std::hint::black_box(s);
+    }
+    fn flush(&self) {}
+}
+static SINK: Sink = Sink;
+
+fn child(sc: &Scenario, sig: String, style: u8) -> ! {
     unsafe {
         libc::ptrace(libc::PTRACE_TRACEME, 0, 0, 0);
+    }
+    if style & 4 != 0 {
+        let _ = log::set_logger(&SINK);
+        log::set_max_level(log::LevelFilter::Trace);
     }
     let mut b = SigV4Authenticator::builder();
     b.canonical_request_sha256(sc.creq_sha).credential(sc.credential.clone()).signature(sig).request_timestamp(sc.ts);
@@ -169,14 +206,14 @@ fn child(sc: &Scenario, sig: String) -> ! {
 }
 
 /// (steps, rip hash, exit code)
-fn trace_one(sc: &Scenario, sig: String) -> Result<(u64, u64, i32), String> {
+fn trace_one(sc: &Scenario, sig: String, style: u8) -> Result<(u64, u64, i32), String> {
     unsafe {
         let pid = libc::fork();
         if pid < 0 {
             return Err("fork failed".into());
         }
         if pid == 0 {
-            child(sc, sig);
+            child(sc, sig, style);
         }
         let mut status: i32 = 0;
         let mut tracing = false;
@@ -235,7 +272,7 @@ fn worker(req: u64, style: u8, positions: &[usize]) {
     let out = std::io::stdout();
     let mut out = out.lock();
     for &p in positions {
-        match trace_one(&sc, presented(&sc.expected, p, style)) {
+        match trace_one(&sc, presented(&sc.expected, p, style), style) {
             Ok((steps, h, code)) => writeln!(out, "{} {} {:016x} {}", p, steps, h, code).unwrap(),
             Err(e) => writeln!(out, "{} ERR {}", p, e).unwrap(),
         }
@@ -341,7 +378,12 @@ fn run_groups(groups: &[Group], outfile: &str) {
         let tags = format!(
             "c07,req{},{},n{}",
             g.req,
-            if g.style == 0 { "single_wrong_char" } else { "wrong_from_position" },
+            format!(
+                "{}{}{}",
+                if g.style & 1 == 0 { "single_wrong_char" } else { "wrong_from_position" },
+                if g.style & 2 != 0 { "+uppercase" } else { "" },
+                if g.style & 4 != 0 { "+trace_logger" } else { "" }
+            ),
             rs.len()
         );
         writeln!(w, "BoolCase 7 {}\t{}\t{}", if ok { "true" } else { "false" }, input, tags).unwrap();
@@ -389,8 +431,9 @@ fn main() {
             _ => (4, (0..64).collect()),
         };
         let base = if tier == "search" { 16 + rng.below(1000) } else { rng.below(4) };
+        let styles: Vec<u8> = if tier == "quick" { vec![0, 1, 2, 5] } else { (0..8).collect() };
         for r in 0..nreq {
-            for style in 0..2u8 {
+            for &style in styles.iter() {
                 groups.push(Group {
                     req: base + r,
                     style,
